@@ -1,7 +1,7 @@
 (** Proofs for C11: the decidable predicates evaluated on the implementation's observations are
     sound for the Prop-level statements. *)
 From Coq Require Import List ZArith QArith Qabs Arith Bool Lia.
-From Elfi Require Import Sched.Sched Sched.Bo Num.Acq Sched.BoCase Proofs.C11_Acq.
+From Elfi Require Import Sched.Sched Sched.Bo Num.Acq Sched.BoCase Proofs.C11_Acq Proofs.C11_Box.
 Import ListNotations.
 Local Close Scope Q_scope.
 
@@ -96,19 +96,124 @@ Proof.
     eapply forallb_Forall; [|eassumption]. intros x. apply in_box_spec.
 Qed.
 
+(** ---- histories on one acquisition object ---- *)
+Definition close_P (a b : Q) : Prop := (Qabs (a - b) <= tol * (1 + Qabs b))%Q.
+Definition fd_close_P (a b : Q) : Prop :=
+  (Qabs (a - b) <= (2 # 10000) * (Qabs a + Qabs b) + (1 # 1000000))%Q.
+
+Record step_property (s : hstep) : Prop := {
+  sp_beta : (0 < h_beta s)%Q;
+  sp_var : (0 < h_var s)%Q;
+  (* the value the long-lived object returns is the value of a fresh object on the CURRENT surrogate *)
+  sp_val : forall v, h_val s = Some v -> close_P v (h_fval s);
+  (* so is its gradient, and it is the finite-difference derivative of the current acquisition function *)
+  sp_grad : forall g, h_grad s = Some g -> Forall2 close_P g (h_fgrad s) /\ Forall2 fd_close_P g (h_fd s);
+  sp_fresh : Forall2 fd_close_P (h_fgrad s) (h_fd s)
+}.
+
+Definition hist_property (h : hist_case) : Prop :=
+  Forall step_property (hs_steps h)
+  /\ Forall (fun a => length (snd a) = fst a /\ Forall (In_box (hs_bounds h)) (snd a)) (hs_acq h).
+
+Lemma closeb_sound a b : closeb a b = true -> close_P a b.
+Proof. unfold closeb, close, close_P. apply Qle_bool_iff. Qed.
+
+Lemma fd_close_sound a b : fd_close a b = true -> fd_close_P a b.
+Proof. unfold fd_close, fd_close_P. apply Qle_bool_iff. Qed.
+
+Lemma not_le_lt0 x : negb (Qle_bool x 0%Q) = true -> (0 < x)%Q.
+Proof.
+  intros H. apply negb_true_iff in H. apply Qnot_le_lt. intros Hle. apply Qle_bool_iff in Hle. congruence.
+Qed.
+
+Theorem step_ok_sound s : step_ok s = true -> step_property s.
+Proof.
+  unfold step_ok. intros H.
+  apply andb_true_iff in H. destruct H as [H Hfresh].
+  apply andb_true_iff in H. destruct H as [H Hgrad].
+  apply andb_true_iff in H. destruct H as [H Hval].
+  apply andb_true_iff in H. destruct H as [H _].
+  apply andb_true_iff in H. destruct H as [Hb Hv].
+  constructor.
+  - now apply not_le_lt0.
+  - now apply not_le_lt0.
+  - intros v E. rewrite E in Hval. simpl in Hval. now apply closeb_sound.
+  - intros g E. rewrite E in Hgrad. simpl in Hgrad. apply andb_true_iff in Hgrad. destruct Hgrad as [G1 G2]. split.
+    + eapply list_eqb_Forall2; [|exact G1]. apply closeb_sound.
+    + eapply list_eqb_Forall2; [|exact G2]. apply fd_close_sound.
+  - eapply list_eqb_Forall2; [|exact Hfresh]. apply fd_close_sound.
+Qed.
+
+Theorem hist_ok_sound h : hist_ok h = true -> hist_property h.
+Proof.
+  unfold hist_ok. intros H.
+  apply andb_true_iff in H. destruct H as [H Ha].
+  apply andb_true_iff in H. destruct H as [_ Hs]. split.
+  - eapply forallb_Forall; [|exact Hs]. apply step_ok_sound.
+  - eapply forallb_Forall; [|exact Ha]. intros [n rows] Hx. unfold hacq_ok in Hx. simpl in *.
+    apply andb_true_iff in Hx. destruct Hx as [H1 H2]. split; [now apply Nat.eqb_eq|].
+    eapply forallb_Forall; [|exact H2]. intros x. apply in_box_spec.
+Qed.
+
+(** the model of a history has no memory: the answer to a query is determined by that step's surrogate
+    alone, whatever was asked (or whatever the surrogate was) before *)
+Theorem hist_model_stateless before s after :
+  nth_error (hist_model (before ++ s :: after)) (length before) = Some (step_val s, step_grad s).
+Proof.
+  unfold hist_model. rewrite map_app. rewrite nth_error_app2 by (rewrite map_length; auto).
+  rewrite map_length, Nat.sub_diag. reflexivity.
+Qed.
+
+(** two steps that see the same surrogate outputs get the same model answer, wherever they occur *)
+Theorem step_model_function s1 s2 :
+  h_beta s1 = h_beta s2 -> h_mean s1 = h_mean s2 -> h_var s1 = h_var s2 ->
+  h_gmean s1 = h_gmean s2 -> h_gvar s1 = h_gvar s2 -> h_sqrt s1 = h_sqrt s2 ->
+  step_val s1 = step_val s2 /\ step_grad s1 = step_grad s2.
+Proof.
+  intros E1 E2 E3 E4 E5 E6. unfold step_val, step_grad. rewrite E1, E2, E3, E4, E5, E6. split; auto.
+  generalize (h_gmean s2) (h_gvar s2). induction l as [|a l IH]; intros [|b l0]; simpl; auto.
+  rewrite E1, E2, E3, E6. f_equal. apply IH.
+Qed.
+
+(** a Bayesian-optimisation run, by parameter NAME: every row handed to the simulator and every
+    acquired row has, at the position of parameter n, a value in the interval the user's dict gives
+    for n -- whatever the key order of the dict *)
+Theorem bo_ok_named k :
+  bo_ok k = true -> length (k_names k) <> 1 ->
+  forall rows, (In rows (k_acq_tab k) \/ exists i, In (i, Some rows) (k_supplied k)) ->
+  forall x, In x rows -> forall i n, nth_error (k_names k) i = Some n ->
+    exists iv xi, lookup (k_dict k) n = Some iv /\ nth_error x i = Some xi /\ (fst iv <= xi /\ xi <= snd iv)%Q.
+Proof.
+  intros H Hl rows Hrows x Hx i n Hi.
+  pose proof (bo_ok_sound k H) as P.
+  assert (E : exists bs, box_of (k_names k) (k_dict k) = Some bs).
+  { unfold bo_ok in H. destruct (box_of (k_names k) (k_dict k)) as [bs|]; [now exists bs|].
+    rewrite andb_false_r in H. simpl in H. discriminate. }
+  destruct E as [bs E].
+  assert (Hb : Forall (In_box bs) rows).
+  { destruct Hrows as [Hin|[j Hin]].
+    - pose proof (bp_answers k P) as A. rewrite Forall_forall in A. destruct (A rows Hin) as [_ B].
+      unfold k_bounds in B. now rewrite E in B.
+    - pose proof (bp_supplied k P) as A. rewrite Forall_forall in A. specialize (A _ Hin). simpl in A.
+      destruct A as [_ [_ [B _]]]. unfold k_bounds in B. now rewrite E in B. }
+  rewrite Forall_forall in Hb. eapply in_user_box_named; eauto.
+Qed.
+
 Definition property_holds (c : case) : Prop :=
   match c with
   | CAcq a => length (a_out a) = a_n a /\ Forall (In_box (a_bounds a)) (a_out a)
   | CBo k => bo_property k
   | CGrad g => (0 < g_beta g)%Q /\ (0 < g_var g)%Q
+  | CHist h => hist_property h
   end.
 
 Theorem ok_sound c : ok c = true -> property_holds c.
 Proof.
-  destruct c as [a|k|g]; simpl.
+  destruct c as [a|k|g|h]; simpl.
   - apply C11_Acq.ok_sound.
   - apply bo_ok_sound.
   - unfold grad_ok. intros H. apply andb_true_iff in H. destruct H as [H _].
     apply andb_true_iff in H. destruct H as [H1 H2]. apply negb_true_iff in H1, H2.
     split; apply Qnot_le_lt; intros Hle; apply Qle_bool_iff in Hle; congruence.
+  - apply hist_ok_sound.
 Qed.
